@@ -8,7 +8,7 @@ from dilworld import unwrap
 CASE_WALL_S = 60
 
 ID = "C17"
-TIERS = {"quick": dict(examples=1200), "thorough": dict(examples=30000)}
+TIERS = {"quick": dict(examples=2400), "thorough": dict(examples=40000)}
 RULE = ("The dilated world of C11 (dilate() timing, listeners, relay, byte-wise handshakes, kills of the selected "
         "link, timers) with close() issued on one or both sides at a tape-chosen step, so that every Manager x "
         "Connector state is hit, also with eventual-queue callbacks pending. Peer variants: dilating; created "
@@ -35,7 +35,7 @@ def cases(draw, tier="quick"):
     peer = draw(st.sampled_from(["dilating", "dilating", "dilating", "nodilation", "neverdilates"]))
     P["peer"] = peer
     P["dilation"] = [True, peer != "nodilation"]
-    P["dilate_at"] = [draw(st.sampled_from(["start", "tape"])),
+    P["dilate_at"] = [draw(st.sampled_from(["start", "tape"] if peer != "nodilation" else ["start", "tape", "tape", "tape"])),
                       "never" if peer != "dilating" else draw(st.sampled_from(["start", "tape"]))]
     P["no_listen"] = draw(st.sampled_from([[False, False], [False, False], [True, False], [False, True]]))
     P["relay"] = draw(st.booleans())
@@ -67,8 +67,8 @@ def cases(draw, tier="quick"):
     # so that the rarely visited states (FLUSHING, LONELY, ABANDONING, a candidate awaiting accept) are hit
     if draw(st.booleans()):
         P["close_in_state"] = [draw(st.integers(0, 1)), draw(st.sampled_from(
-            ["WANTING", "CONNECTING", "CONNECTED", "CONNECTED", "CONNECTED", "FLUSHING", "LONELY", "ABANDONING", "CANDIDATE",
-             "CANDIDATE"]))]
+            ["WANTING", "CONNECTING", "CONNECTED", "CONNECTED", "CONNECTED", "CONNECTED", "CONNECTED", "FLUSHING", "LONELY",
+             "ABANDONING", "CANDIDATE", "CANDIDATE"]))]
         # the steered side closes only when the state is reached (or at the end); the other side stays up
         P["ops"] = [o for o in P["ops"] if o[0] != "wclose"]
         if P["close_in_state"][1] in ("FLUSHING", "LONELY", "ABANDONING"):
@@ -90,7 +90,7 @@ def cases(draw, tier="quick"):
         P["kills"] = P["close_after_kills"]
         P["w_kill"] = 6
         P["kill_notify"] = draw(st.sampled_from(["leader", "leader", "follower", "both", "tape"]))
-        P["close_in_state"][0] = draw(st.sampled_from(["L", "L", "F"]))      # by role, whichever side gets it
+        P["close_in_state"][0] = draw(st.sampled_from(["L", "F"]))      # by role, whichever side gets it
         P["silent"] = None
         if P["peer"] != "dilating":
             P["peer"] = "dilating"
